@@ -14,12 +14,13 @@ Not decided: which endpoints a round addresses when the set changes while the ro
 from __future__ import annotations
 
 import ast
+import itertools
 
 from ..absint import eval_term
 from ..facts import AnalysisError
 from ..sym import enum_members
 from ..terms import const, contains, show, strip_sites, subterms
-from ..util import InlineOnly, NoInline, P, Scan, calls_to, engine, loc, param_at, unwrap_iter
+from ..util import InlineOnly, NoInline, P, Scan, buffer_tests_feasible, calls_to, engine, loc, param_at, unwrap_iter
 from .derived import cache_coherence
 
 EG = "service.SimpleEventgroup"
@@ -63,22 +64,7 @@ def check(run, prog, tier):
     checked = 0
     probs = {}
     def feasible(p):
-        """an encoded header is never empty, an untouched bytearray() is: decide `if msgbuf` accordingly"""
-        def leaf(tm):
-            if tm[0] == "call" and tm[1][0] == "bound" and tm[1][2] == build_q:
-                return b"h" * 16
-            if tm[0] == "call" and tm[1] in (("ext", "bytearray"), ("ext", "bytes")) and not tm[2]:
-                return b""
-            if tm[0] == "call" and tm[1][0] == "attr" and tm[1][2] == "join" and len(tm[2]) == 1 and not tm[3]:
-                return bytes(eval_term(tm[1][1], leaf)).join(bytes(x) for x in eval_term(tm[2][0], leaf))
-            raise AnalysisError("other")
-        for c, v, _, _ in p.conds:
-            try:
-                if bool(eval_term(c, leaf)) != v:
-                    return False
-            except AnalysisError:
-                continue
-        return True
+        return buffer_tests_feasible(p, build_q)
 
     for p in paths:
         if p.outcome[0] == "raise" or not feasible(p):
@@ -141,21 +127,26 @@ def check(run, prog, tier):
                 if set(d) - set(want) - {"method_id", "session_id"}:
                     probs.setdefault("V1:extra-fields", f"unexpected header fields {sorted(set(d) - set(want) - {'method_id', 'session_id'})}")
         if not p.truncated:
-            if len(sends) != 1:
-                probs.setdefault("V1:one-datagram-per-destination", f"{len(news)} notification(s) built, {len(sends)} datagram(s) sent")
-            else:
-                dest = sends[0].arg(1, "remote")
+            # "once each": every notification built for the round is in exactly one datagram, every datagram goes to the
+            # endpoint's resolved address and carries at least one notification (how many datagrams a round is split into
+            # is not part of the statement)
+            if not sends:
+                probs.setdefault("V1:all-events-in-the-datagram", f"{len(news)} notification(s) built, nothing sent")
+            for s_ in sends:
+                dest = s_.arg(1, "remote")
                 if not (dest is not None and any(dest == ("await", a) or dest == a for a in addr_terms)):
                     probs.setdefault("V1:destination", f"datagram sent to {show(dest)[:60]}; expected the endpoint's resolved address")
-                if len(builds) != len(news):
-                    probs.setdefault("V1:all-events-in-the-datagram", f"{len(news)} headers but {len(builds)} encoded")
-                buf = sends[0].args[0] if sends[0].args else None
-                for n in news:
-                    if buf is None or not contains(buf, lambda s_, n=n: s_ == n.result):
-                        probs.setdefault("V1:all-events-in-the-datagram", "a built notification is not part of the transmitted buffer")
+                if not (s_.args and any(contains(s_.args[0], lambda t_, n=n: t_ == n.result) for n in news)):
+                    probs.setdefault("V1:nothing-to-send", f"a datagram without any notification is sent ({show(s_.args[0])[:40] if s_.args else '?'})")
+            if len(builds) != len(news):
+                probs.setdefault("V1:all-events-in-the-datagram", f"{len(news)} headers but {len(builds)} encoded")
+            for n in news:
+                k = sum(1 for s_ in sends if s_.args and contains(s_.args[0], lambda t_, n=n: t_ == n.result))
+                if sends and k != 1:
+                    probs.setdefault("V1:all-events-in-the-datagram", f"a built notification is part of {k} transmitted buffer(s); every notification is sent exactly once")
     run.floor("V1-paths", checked, 2)
     for key in ("V1:method-id", "V1:service_id", "V1:client_id", "V1:message_type", "V1:interface_version", "V1:payload", "V1:session_id",
-                "V1:extra-fields", "V1:every-requested-event-notified", "V1:one-datagram-per-destination", "V1:destination", "V1:all-events-in-the-datagram", "V1:nothing-to-send"):
+                "V1:extra-fields", "V1:every-requested-event-notified", "V1:destination", "V1:all-events-in-the-datagram", "V1:nothing-to-send"):
         run.ob("V1", f"{ns.qual}:{key[3:]}", key not in probs, loc(ns), probs.get(key, "holds on every enumerated path (0, 1 and 2 events)"))
     it_ok = any(s_[0] == "elem" and unwrap_iter(s_[1]) == events for p in paths for e in p.events if e.kind == "call" and e.result is not None
                 for s_ in subterms(e.result))
@@ -302,12 +293,21 @@ def check(run, prog, tier):
     sme = ("self", SVC)
     cpaths = e4.paths(cs, recv=SVC)
     run.paths += len(cpaths)
-    for n_ep, known in ((1, True), (0, True), (2, True), (1, False)):
+    # the endpoints of a subscription are options of either transport: "other than exactly one endpoint" is decided for
+    # every mix of them (a rule that looks at what kind of endpoints they are must still refuse two of them)
+    from ..absint import Record
+    l4 = enum_members(prog, "header.L4Protocols")
+    protos = [l4[k] for k in sorted(l4)]
+    combos = [(n, pr, True) for n in (0, 1, 2, 3) for pr in itertools.product(protos, repeat=n)] + [(1, (protos[0],), False)]
+    for n_ep, pr_, known in combos:
+        eps = frozenset(Record(f"endpoint{i}", l4proto=pv) for i, pv in enumerate(pr_))
+        mix = "/".join(getattr(pv, "name", str(pv)) for pv in pr_)
+
         def leaf(tm):
             if tm[0] == "call" and tm[1] == ("ext", "len") and tm[2] == (("attr", subp, "endpoints"),):
                 return n_ep
             if tm == ("attr", subp, "endpoints"):
-                return tuple(range(n_ep))
+                return eps
             if tm[0] == "call" and tm[1] == ("attr", ("attr", sme, "eventgroups"), "get"):
                 return object() if known else None
             raise AnalysisError(f"{cs.qual}: decision depends on {show(tm)}")
@@ -330,10 +330,10 @@ def check(run, prog, tier):
         if n_ep == 1 and known:
             ok = p.returns() and len(subs) == 1 and subs[0].recv is not None and contains(subs[0].recv, lambda s: s[0] == "attr" and s[2] == "eventgroups") \
                 and contains(subs[0].args[0], lambda s: s == ("attr", subp, "endpoints"))
-            run.ob("V4", f"{cs.qual}:accepts-single-endpoint", ok, loc(cs), "exactly one endpoint of a known eventgroup: that endpoint is subscribed to that eventgroup")
+            run.ob("V4", f"{cs.qual}:accepts-single-endpoint[{mix}]", ok, loc(cs), "exactly one endpoint of a known eventgroup: that endpoint is subscribed to that eventgroup")
         else:
             ok = p.outcome[0] == "raise" and p.outcome[1] == "sd.NakSubscription" and not subs
-            why = f"{n_ep} endpoints" if known else "unknown eventgroup"
+            why = (f"{n_ep} endpoints" + (f" {mix}" if mix else "")) if known else "unknown eventgroup"
             run.ob("V4", f"{cs.qual}:refuses[{why}]", ok, loc(cs),
                    f"{why}: " + ("refused with NakSubscription, nothing subscribed" if ok else f"ends with {p.outcome[0]} {p.outcome[1] if len(p.outcome) > 1 else ''} and {len(subs)} subscribe call(s)"))
     # independent of assert statements (python -O): the whole body is guarded by `except Exception -> NakSubscription`
